@@ -2,6 +2,7 @@ package keysim
 
 import (
 	"bufio"
+	"io"
 	"encoding/json"
 	"fmt"
 	"os"
@@ -47,8 +48,11 @@ type ReplayFile struct {
 
 type workerLine struct {
 	E    int     `json:"e"`
+	Ms   int64   `json:"ms,omitempty"` // wall time of the episode (cost accounting only, never a decision)
+	Prof string  `json:"prof,omitempty"`
 	Res  *Result `json:"res,omitempty"`
 	Done bool    `json:"done,omitempty"`
+	Begin bool   `json:"begin,omitempty"`
 	N    int     `json:"n,omitempty"`
 	Skip int     `json:"skipped,omitempty"`
 }
@@ -56,19 +60,26 @@ type workerLine struct {
 // Worker runs episodes e = w, w+nw, w+2nw, ... of the batch and prints one
 // JSON line per episode. deadline (unix seconds, 0 = none) only decides at
 // which episode index the worker stops; it never influences an episode.
-func Worker(prop, tier string, seed uint64, w, nw int, deadline int64) {
+func Worker(prop, tier string, seed uint64, w, nw int, deadline int64, from int) {
 	b := NewBatch(prop, tier, seed)
 	out := bufio.NewWriter(os.Stdout)
 	defer out.Flush()
 	enc := json.NewEncoder(out)
 	n, skipped := 0, 0
 	for e := w; e < b.Len(); e += nw {
+		if e < from {
+			continue
+		}
 		if deadline > 0 && time.Now().Unix() >= deadline {
 			skipped++
 			continue
 		}
-		res := Run(b.At(e))
-		enc.Encode(workerLine{E: e, Res: res})
+		ep := b.At(e)
+		enc.Encode(workerLine{E: e, Begin: true})
+		out.Flush()
+		t0 := time.Now()
+		res := Run(ep)
+		enc.Encode(workerLine{E: e, Res: res, Ms: time.Since(t0).Milliseconds(), Prof: fmt.Sprintf("%s/stub=%v", ep.Profile+ep.Kind[:0], ep.Stub)})
 		out.Flush()
 		n++
 	}
@@ -276,6 +287,7 @@ type CheckConfig struct {
 	TreeHash    string
 	BudgetS     int // wall-clock cap for the random part (0 = none)
 	WatchdogS   int
+	EpisodeLimitS int
 	MaxReported int
 }
 
@@ -292,6 +304,8 @@ type agg struct {
 	unconf     int
 	skipped    int
 	byProfile  core.Counter
+	cpuMs      core.Counter
+	lost       []string // episodes whose worker died or timed out
 }
 type found struct {
 	e int
@@ -304,7 +318,7 @@ func Check(c CheckConfig) int {
 	start := time.Now()
 	fmt.Printf("keysim: property=%s tier=%s VERIF_SEED=%d workers=%d tree=%s\n", c.Prop, c.Tier, c.Seed, c.Workers, c.TreeHash)
 	b := NewBatch(c.Prop, c.Tier, c.Seed)
-	a := &agg{faults: core.Counter{}, probes: core.Counter{}, digests: map[string]bool{}, allDigests: map[string]bool{}, others: core.Counter{}, byProfile: core.Counter{}}
+	a := &agg{faults: core.Counter{}, probes: core.Counter{}, digests: map[string]bool{}, allDigests: map[string]bool{}, others: core.Counter{}, byProfile: core.Counter{}, cpuMs: core.Counter{}}
 	var mu sync.Mutex
 	var wg sync.WaitGroup
 	deadline := int64(0)
@@ -316,43 +330,81 @@ func Check(c CheckConfig) int {
 		wg.Add(1)
 		go func(w int) {
 			defer wg.Done()
-			cmd := exec.Command(c.Self, "worker", c.Prop, c.Tier, strconv.FormatUint(c.Seed, 10), strconv.Itoa(w), strconv.Itoa(c.Workers), strconv.FormatInt(deadline, 10))
-			cmd.Stderr = os.Stderr
-			cmd.Env = append(os.Environ(), "GOMAXPROCS=2")
-			stdout, err := cmd.StdoutPipe()
-			if err != nil {
-				failed[w] = err
-				return
-			}
-			if err := cmd.Start(); err != nil {
-				failed[w] = err
-				return
-			}
-			timer := time.AfterFunc(time.Duration(c.WatchdogS)*time.Second, func() { cmd.Process.Kill() })
-			defer timer.Stop()
-			sc := bufio.NewScanner(stdout)
-			sc.Buffer(make([]byte, 1<<20), 1<<28)
-			done := false
-			for sc.Scan() {
-				var l workerLine
-				if err := json.Unmarshal(sc.Bytes(), &l); err != nil {
-					failed[w] = fmt.Errorf("worker %d: bad line: %v", w, err)
-					break
+			// A worker that dies or exceeds the per-episode limit loses only the
+			// episode it was in: it is restarted behind that episode, so that
+			// the rest of the batch still runs (and can still find violations).
+			from := 0
+			for restarts := 0; ; restarts++ {
+				cmd := exec.Command(c.Self, "worker", c.Prop, c.Tier, strconv.FormatUint(c.Seed, 10), strconv.Itoa(w), strconv.Itoa(c.Workers), strconv.FormatInt(deadline, 10), strconv.Itoa(from))
+				cmd.Stderr = io.Discard
+				cmd.Env = append(os.Environ(), "GOMAXPROCS=2")
+				stdout, err := cmd.StdoutPipe()
+				if err != nil || cmd.Start() != nil {
+					failed[w] = fmt.Errorf("worker %d: cannot start: %v", w, err)
+					return
 				}
-				if l.Done {
-					done = true
+				var tmu sync.Mutex
+				begun := time.Now()
+				stop := make(chan struct{})
+				go func() { // per-episode watchdog (wall-clock; only ever leads to exit 2)
+					for {
+						select {
+						case <-stop:
+							return
+						case <-time.After(time.Second):
+							tmu.Lock()
+							late := time.Since(begun) > time.Duration(c.EpisodeLimitS)*time.Second
+							tmu.Unlock()
+							if late {
+								cmd.Process.Kill()
+								return
+							}
+						}
+					}
+				}()
+				sc := bufio.NewScanner(stdout)
+				sc.Buffer(make([]byte, 1<<20), 1<<28)
+				done := false
+				cur := -1
+				for sc.Scan() {
+					var l workerLine
+					if err := json.Unmarshal(sc.Bytes(), &l); err != nil {
+						continue
+					}
+					if l.Begin {
+						cur = l.E
+						tmu.Lock()
+						begun = time.Now()
+						tmu.Unlock()
+						continue
+					}
+					if l.Done {
+						done = true
+						mu.Lock()
+						a.skipped += l.Skip
+						mu.Unlock()
+						continue
+					}
+					cur = -1
 					mu.Lock()
-					a.skipped += l.Skip
+					a.add(c.Prop, l.E, l.Res)
+					a.byProfile.Add(l.Prof, 1)
+					a.cpuMs.Add(l.Prof, l.Ms)
 					mu.Unlock()
-					continue
+				}
+				err = cmd.Wait()
+				close(stop)
+				if done {
+					return
+				}
+				if cur < 0 || restarts > 20 {
+					failed[w] = fmt.Errorf("worker %d ended abnormally outside an episode (err=%v)", w, err)
+					return
 				}
 				mu.Lock()
-				a.add(c.Prop, l.E, l.Res)
+				a.lost = append(a.lost, fmt.Sprintf("episode %d (worker %d): %v - process crashed or exceeded %ds", cur, w, err, c.EpisodeLimitS))
 				mu.Unlock()
-			}
-			err = cmd.Wait()
-			if failed[w] == nil && (err != nil || !done) {
-				failed[w] = fmt.Errorf("worker %d ended abnormally (err=%v, completed=%v): crash, watchdog or harness fault", w, err, done)
+				from = cur + 1
 			}
 		}(w)
 	}
@@ -452,6 +504,7 @@ func Check(c CheckConfig) int {
 		"exhaustive":          false,
 		"exhaustive_subspaces": exhaustiveSubspaces(c.Prop, c.Tier),
 		"episodes_by_profile": a.byProfile,
+		"cpu_ms_by_profile":   a.cpuMs,
 		"distinct_episodes":   len(a.allDigests),
 		"logical_steps":       a.steps,
 		"simulated_time":      "none: the library has no clock, timer or deadline; progress is counted in logical steps (operations)",
@@ -467,6 +520,7 @@ func Check(c CheckConfig) int {
 		"known_findings_matched":          knownMatched,
 		"other_property_oracle_failures":  a.others,
 		"episodes_skipped_by_budget":      a.skipped,
+		"episodes_lost_to_crash_or_timeout": a.lost,
 		"unconfirmed_in_fresh_process":    unconfirmed,
 		"workers":                         c.Workers,
 		"tree_hash":                       c.TreeHash,
@@ -494,6 +548,12 @@ func Check(c CheckConfig) int {
 	}
 	if unconfirmed > 0 {
 		fmt.Fprintf(os.Stderr, "keysim: INCONCLUSIVE: %d reported failure(s) did not reproduce in a fresh process\n", unconfirmed)
+		return 2
+	}
+	if len(a.lost) > 0 {
+		for _, l := range a.lost {
+			fmt.Fprintf(os.Stderr, "keysim: INCONCLUSIVE: %s\n", l)
+		}
 		return 2
 	}
 	if len(a.viol)-knownMatched > 0 {
@@ -575,11 +635,13 @@ func exhaustiveSubspaces(prop, tier string) []string {
 			return []string{"every index 0..2^h-1 signed/validated plus the refused attempt at 2^h: stub leaves h in {4,6,8,10,12,14,16,18} x 3 hash functions; real leaves h in {4,6,8,10} x 3 hash functions", "every single forward jump i -> j (0 <= i <= j < 2^h), path checked at j..j+3 and at the last index: stub leaves h in {4,6,8}"}
 		}
 		return []string{"every index 0..2^h-1 signed/validated plus the refused attempt at 2^h: stub leaves h in {4,6,8,10,12,14} x 3 hash functions; real leaves h in {4,6} x 3 hash functions", "every single forward jump i -> j (0 <= i <= j < 2^h), path checked at j..j+3 and at the last index: stub leaves h in {4,6}"}
+	case "C02":
+		return []string{"every refusal class (SetIndex to 2^h, 2^h+1, 2^31, 2^32-2, 2^32-1, random >= 2^h, idx-1, 0, random < idx; Sign after exhaustion) tried before the last leaf, after exhaustion and mid-life with a signature after each: stub leaves h in {4,6,...,16}, real leaves h in {4,6}, 3 hash functions"}
 	case "C08":
 		if th {
-			return []string{"every crash index i in [0,2^h] x 4 secret forms x 4 restore-plan kinds, each drained to the end of the key's life: stub leaves h in {4,6,8}, real leaves h in {4,6}", "every single forward jump i -> j compared with a twin that took unit steps: stub leaves h in {4,6,8}"}
+			return []string{"every crash index i in [0,2^h] x 4 secret forms x 4 restore-plan kinds, each drained to the end of the key's life: stub leaves h in {4,6,8}, real leaves h in {4,6}", "every single forward jump i -> j compared with a twin that took unit steps: stub leaves h in {4,6,8}", "signing path vs fast-forward path compared at every index of the key (live signs, twin only SetIndex): stub leaves h in {4,...,14}, real leaves h = 6"}
 		}
-		return []string{"every crash index i in [0,2^h] x 4 secret forms x 4 restore-plan kinds, each drained to the end of the key's life: stub leaves h in {4,6}, real leaves h = 4", "every single forward jump i -> j compared with a twin that took unit steps: stub leaves h in {4,6}"}
+		return []string{"every crash index i in [0,2^h] x 4 secret forms x 4 restore-plan kinds, each drained to the end of the key's life: stub leaves h in {4,6}, real leaves h = 4", "every single forward jump i -> j compared with a twin that took unit steps: stub leaves h in {4,6}", "signing path vs fast-forward path compared at every index of the key (live signs, twin only SetIndex): stub leaves h in {4,...,12}, real leaves h = 6"}
 	case "C09":
 		return []string{"entropy failure after k bytes for every k in [0,48), XMSS and Dilithium", "every (height, hash function) cell of the listed heights with all four XMSS restore paths"}
 	}
